@@ -51,6 +51,11 @@ pub fn alphabet(cs: u32) -> Vec<Op> {
         Op::SetTime { h: 0, which: Which::Created, tick: 900 },
         Op::SetTime { h: 0, which: Which::Modified, tick: 901 },
         Op::SetTime { h: 0, which: Which::Accessed, tick: 902 },
+        // the same instant for another field (a setter that compares with the wrong stored stamp drops it)
+        Op::SetTime { h: 0, which: Which::Modified, tick: 900 },
+        Op::SetTime { h: 0, which: Which::Created, tick: 901 },
+        Op::Write { h: 0, len: 2 },
+        Op::Seek { h: 0, pos: sess::SeekSpec::Start(1) },
         Op::Remount,
     ]
 }
@@ -63,7 +68,9 @@ pub fn specs(tier: &str) -> Vec<ExpSpec> {
             let mut c = vol::tiny_with(ft, 8, 16);
             c.ticking = true;
             c.atime = atime;
-            c.name = format!("{}-clock{}", c.name, if atime { "-atime" } else { "" });
+            // the four configurations give the mount options to the builder in four different orders
+            c.opts_order = v.len() as u8 % 4;
+            c.name = format!("{}-clock{}-opts{}", c.name, if atime { "-atime" } else { "" }, c.opts_order);
             v.push(ExpSpec::new(c, alphabet(512), if th { 8 } else { 5 }));
         }
     }
@@ -92,17 +99,38 @@ fn probe(cfg: &Cfg) -> Probe {
     Probe { st, fs, entry_off }
 }
 
-/// set all three stamps, flush, drop, re-list; compare accessors and raw words
-fn roundtrip(p: &Probe, date: (u16, u16, u16), time: (u16, u16, u16, u16)) -> Option<(String, String)> {
-    let ctx = format!("{:04}-{:02}-{:02} {:02}:{:02}:{:02}.{:03}", date.0, date.1, date.2, time.0, time.1, time.2, time.3);
+/// set the three stamps (to three DIFFERENT instants derived from the case, in an order that depends on the case; every
+/// fifth case to one and the same instant), flush, re-list; compare accessors and raw words field by field
+fn roundtrip(p: &Probe, date: (u16, u16, u16), time: (u16, u16, u16, u16), idx: usize) -> Option<(String, String)> {
+    let ctx = format!("{:04}-{:02}-{:02} {:02}:{:02}:{:02}.{:03} (case {idx})", date.0, date.1, date.2, time.0, time.1, time.2, time.3);
+    let same = idx % 5 == 0;
+    // bijections on the valid ranges: while (date, time) sweeps its domain so do the derived instants
+    let (md, mt) = if same { (date, time) } else { ((1980 + (date.0 - 1980 + 17) % 128, date.1 % 12 + 1, date.2 % 31 + 1), ((time.0 + 5) % 24, (time.1 + 7) % 60, (time.2 + 22) % 60, (time.3 + 500) % 1000)) };
+    let ad = if same { date } else { (1980 + (date.0 - 1980 + 63) % 128, (date.1 + 4) % 12 + 1, (date.2 + 10) % 31 + 1) };
     let r = sess::guarded(|| -> Result<(), (String, String)> {
-        let dt = DateTime::new(Date::new(date.0, date.1, date.2), Time::new(time.0, time.1, time.2, time.3));
+        let cdt = DateTime::new(Date::new(date.0, date.1, date.2), Time::new(time.0, time.1, time.2, time.3));
+        let mdt = DateTime::new(Date::new(md.0, md.1, md.2), Time::new(mt.0, mt.1, mt.2, mt.3));
+        let adt = Date::new(ad.0, ad.1, ad.2);
         let root = p.fs.root_dir();
         {
             let mut f = root.open_file("t").map_err(|e| ("C18/machinery/open".to_string(), format!("{:?}", sess::ek(e))))?;
-            f.set_created(dt);
-            f.set_modified(dt);
-            f.set_accessed(dt.date);
+            match idx % 3 {
+                0 => {
+                    f.set_created(cdt);
+                    f.set_modified(mdt);
+                    f.set_accessed(adt);
+                }
+                1 => {
+                    f.set_modified(mdt);
+                    f.set_created(cdt);
+                    f.set_accessed(adt);
+                }
+                _ => {
+                    f.set_accessed(adt);
+                    f.set_modified(mdt);
+                    f.set_created(cdt);
+                }
+            }
             f.flush().map_err(|e| ("C18/roundtrip/flush-failed".to_string(), format!("{ctx}: {:?}", sess::ek(e))))?;
         }
         let e = root.iter().filter_map(Result::ok).find(|e| e.file_name() == "t").ok_or(("C18/machinery/relist".to_string(), ctx.clone()))?;
@@ -114,24 +142,37 @@ fn roundtrip(p: &Probe, date: (u16, u16, u16), time: (u16, u16, u16, u16)) -> Op
         if got_c != want_c {
             return Err(("C18/roundtrip/created".into(), format!("set {ctx}: created() returns {got_c:?}, expected {want_c:?}")));
         }
-        let want_m = (date.0, date.1, date.2, time.0, time.1, time.2 & !1, 0);
+        let want_m = (md.0, md.1, md.2, mt.0, mt.1, mt.2 & !1, 0);
         let got_m = (m.date.year, m.date.month, m.date.day, m.time.hour, m.time.min, m.time.sec, m.time.millis);
         if got_m != want_m {
             return Err(("C18/roundtrip/modified".into(), format!("set {ctx}: modified() returns {got_m:?}, expected {want_m:?}")));
         }
-        if (a.year, a.month, a.day) != date {
-            return Err(("C18/roundtrip/accessed".into(), format!("set {ctx}: accessed() returns {:?}", (a.year, a.month, a.day))));
+        if (a.year, a.month, a.day) != ad {
+            return Err(("C18/roundtrip/accessed".into(), format!("set {ctx}: accessed() returns {:?}, expected {ad:?}", (a.year, a.month, a.day))));
         }
         // raw words (independent DOS packing)
         let raw = p.st.borrow().read_vec(p.entry_off, 32);
         let w = |o: usize| u16::from_le_bytes([raw[o], raw[o + 1]]);
-        let dword = ((date.0 - 1980) << 9) | (date.1 << 5) | date.2;
-        let tword = (time.0 << 11) | (time.1 << 5) | (time.2 / 2);
+        let dword = |d: (u16, u16, u16)| ((d.0 - 1980) << 9) | (d.1 << 5) | d.2;
+        let tword = |t: (u16, u16, u16, u16)| (t.0 << 11) | (t.1 << 5) | (t.2 / 2);
         let tenths = ((time.2 % 2) * 100 + time.3 / 10) as u8;
-        if raw[13] != tenths || w(14) != tword || w(16) != dword || w(18) != dword || w(22) != tword || w(24) != dword {
+        if raw[13] != tenths || w(14) != tword(time) || w(16) != dword(date) || w(18) != dword(ad) || w(22) != tword(mt) || w(24) != dword(md) {
             return Err((
                 "C18/roundtrip/raw-words".into(),
-                format!("set {ctx}: raw tenths {} ctime {:#06x} cdate {:#06x} adate {:#06x} mtime {:#06x} mdate {:#06x}; expected {tenths} {tword:#06x} {dword:#06x}", raw[13], w(14), w(16), w(18), w(22), w(24)),
+                format!(
+                    "set {ctx}: raw tenths {} ctime {:#06x} cdate {:#06x} adate {:#06x} mtime {:#06x} mdate {:#06x}; expected {tenths} {:#06x} {:#06x} {:#06x} {:#06x} {:#06x}",
+                    raw[13],
+                    w(14),
+                    w(16),
+                    w(18),
+                    w(22),
+                    w(24),
+                    tword(time),
+                    dword(date),
+                    dword(ad),
+                    tword(mt),
+                    dword(md)
+                ),
             ));
         }
         Ok(())
@@ -191,16 +232,16 @@ pub fn domain(tier: &str, deadline: Instant) -> (Vec<(String, String)>, u64, boo
             return v;
         }
         let p = probe(&cfg);
-        for (d, t) in chunk {
+        for (k, (d, t)) in chunk.iter().enumerate() {
             evals.fetch_add(1, Ordering::Relaxed);
-            if let Some(x) = roundtrip(&p, *d, *t) {
+            if let Some(x) = roundtrip(&p, *d, *t, k) {
                 v.push(x);
                 if v.len() > 4 {
                     break;
                 }
             }
         }
-        std::mem::forget(p.fs);
+        drop(p);
         v
     };
     let cases: Vec<((u16, u16, u16), (u16, u16, u16, u16))> =
